@@ -51,9 +51,16 @@ def quat_matrix(q):
         [2 * (x * z - y * w), 2 * (y * z + x * w), 1 - 2 * (x * x + y * y)]])
 
 
-def _unitf(lo=-1.0, hi=1.0):
+def coord(lo=-1.0, hi=1.0):
+    """floats in [lo, hi]; magnitudes below 1e-100 become exact zero (values
+    whose squares underflow are not generated, DESIGN 8.3)"""
     return st.floats(min_value=lo, max_value=hi, allow_nan=False,
-                     allow_infinity=False, width=64)
+                     allow_infinity=False, width=64).map(
+        lambda x: 0.0 if abs(x) < 1e-100 else x)
+
+
+def _unitf(lo=-1.0, hi=1.0):
+    return coord(lo, hi)
 
 
 rot_identity = st.just(np.eye(3))
@@ -120,8 +127,12 @@ lattice_coord = st.integers(-2, 2).map(float)
 pos_lattice = st.tuples(lattice_coord, lattice_coord, lattice_coord).map(list)
 
 
+def _flush_abs(v, thr=1e-100):
+    return [0.0 if abs(x) < thr else float(x) for x in v]
+
+
 def pos_ball(radius=10.0):
-    f = st.floats(-radius, radius, allow_nan=False, width=64)
+    f = coord(-radius, radius)
     return st.tuples(f, f, f).map(list)
 
 
